@@ -70,13 +70,27 @@ def _set_active_context(heap: EventHeap, clock: Clock) -> None:
     # Set per-partition event counter if the heap owns one
     heap_counter = getattr(heap, "_event_counter", None)
     if heap_counter is not None:
+        # Continue after every index issued so far (before the run or while paused), so
+        # that events with equal timestamps keep their creation order across both counters.
+        from happysimulator.core import event as _event_module
+
+        start = max(next(heap_counter), next(_event_module._global_event_counter))
+        heap_counter = count(start)
+        heap._event_counter = heap_counter
         _active_counter_var.set(heap_counter)
 
 
 def _clear_active_context() -> None:
     """Clear the active simulation context. Called when Simulation.run() exits."""
+    from happysimulator.core import event as _event_module
     from happysimulator.core.event import _active_counter_var
 
+    heap_counter = _active_counter_var.get(None)
+    if heap_counter is not None:
+        # Events created outside the run (e.g. while paused) must sort after in-run ones.
+        _event_module._global_event_counter = count(
+            max(next(heap_counter), next(_event_module._global_event_counter))
+        )
     _active_heap_var.set(None)
     _active_clock_var.set(None)
     _active_counter_var.set(None)
